@@ -122,6 +122,10 @@ func outOfTableKeys(m *dsl.Field, kf *dsl.Field) []string {
 
 func genC05(rt *rapid.T, cfg dsl.GenCfg) c05Case {
 	p := dsl.GenProgram(rt, cfg)
+	// a packet with two match fields, each selected by its own key field
+	if !cfg.Avoid["match:two-per-packet"] && rapid.IntRange(0, 3).Draw(rt, "second_match") == 0 {
+		dsl.AddSecondMatch(rt, p)
+	}
 	k := c05Case{xCase: xCase{Prog: p, Langs: append([]string{}, xlang.Codecs...)}}
 	for si, s := range matchSites(p) {
 		kf := s.K.FieldByName(s.F.Key)
